@@ -62,8 +62,12 @@ EncEvent(e) == BE32(EvCodes[e])
 IsEventCode(b4) == \E e \in Events : EncEvent(e) = b4
 DecEvent(b4) == CHOOSE e \in Events : EncEvent(e) = b4
 
-RECURSIVE Flatten(_)
-Flatten(ss) == IF ss = <<>> THEN <<>> ELSE Head(ss) \o Flatten(Tail(ss))
+(* concatenation of a list of byte tuples that all have the same length (hashes, *)
+(* peers, statistics entries); written without recursion for long lists        *)
+Flatten(ss) ==
+    IF Len(ss) = 0 THEN <<>>
+    ELSE LET w == Len(ss[1])
+         IN [j \in 1..(Len(ss) * w) |-> ss[((j - 1) \div w) + 1][((j - 1) % w) + 1]]
 
 Min(a, b) == IF a <= b THEN a ELSE b
 
